@@ -669,6 +669,10 @@ def _check_loader(prog: Program, res: Result, lfi, sec_tabs):
             continue
         foreign = []
         for test, pol in guards:
+            ifn = next((n_ for n_ in ast.walk(lfi.node) if isinstance(n_, ast.If) and n_.test is test), None)
+            other = (ifn.orelse if pol else ifn.body) if ifn is not None else []
+            if other and isinstance(other[-1], (ast.Return, ast.Raise)):
+                continue  # the other branch leaves the function: every run that goes on passes through this read
             names = {x.id for x in ast.walk(test) if isinstance(x, ast.Name)}
             others = {sec_of[n_] for n_ in names if n_ in sec_of and isinstance(sec_of[n_], str) and sec_of[n_] != sec}
             enums = any((attr_chain(x) or "").startswith(("DesignGeomType.", "BHPipeType.")) for x in ast.walk(test) if isinstance(x, ast.Attribute))
@@ -1289,6 +1293,12 @@ def _check_enums(prog: Program, res: Result, wfi, lfi):
 
 
 VARIANTS = [
+    Variant("loader forwards max_boreholes only for the rectangle / near-square methods (seeded C17_k)", "break",
+            [(MGR, "    max_bh = design_props.get(\"max_boreholes\", None)\n", "    max_bh = None\n    if str(constraint_props[\"method\"]).upper() in (DesignGeomType.RECTANGLE.name, DesignGeomType.NEARSQUARE.name):\n        max_bh = design_props.get(\"max_boreholes\", None)\n")], "K3"),
+    Variant("loader substitutes 0.8 for a missing perimeter spacing ratio (seeded C17_l)", "break",
+            [(MGR, "        perimeter_spacing_ratio = constraint_props.get(\"perimeter_spacing_ratio\", None)", "        perimeter_spacing_ratio = constraint_props.get(\"perimeter_spacing_ratio\", 0.8)")], "K3"),
+    Variant("loader reads the optional ratio without naming the default", "benign",
+            [(MGR, "        perimeter_spacing_ratio = constraint_props.get(\"perimeter_spacing_ratio\", None)", "        perimeter_spacing_ratio = constraint_props.get(\"perimeter_spacing_ratio\")")]),
     Variant("a single no-go polygon is no longer wrapped into a list by the constrained geometry (seeded C17_i)", "break",
             [(GEO, "        if len(no_go_boundaries) > 0 and isinstance(no_go_boundaries[0][0], (int, float)):\n            self.no_go_boundaries = [no_go_boundaries]\n        else:\n            self.no_go_boundaries = no_go_boundaries",
               "        self.no_go_boundaries = no_go_boundaries")], "K11"),
